@@ -135,7 +135,7 @@ def _run_combine(cfg, rec):
                             items.append(("column of a label = sum of the (megacomplex-scaled) columns contributed under that label, "
                                           "whatever the declaration order", pl.eq_term(ctx, got, entry(t, lab, g)), "labels:combine:column"))
             rec.check_all(ctx, items, wit)
-            rec.sample({"megacomplex_order": ds["mc"], "labels": {m: v["labels"] for m, v in cfg["mcs"].items()}, "result_labels": list(out.clp_labels)})
+            rec.want_sample() and rec.sample({"megacomplex_order": ds["mc"], "labels": {m: v["labels"] for m, v in cfg["mcs"].items()}, "result_labels": list(out.clp_labels)})
     if len(rec.validations) < 3:
         rec.validations.append((cfg["name"], {"__item": cfg}, {"ok": True}))
 
@@ -184,7 +184,7 @@ def _run_osc(cfg, rec):
                               z3.And(zreal(matrix[a, labels.index(f"o{i}_cos")]) == re, zreal(matrix[a, labels.index(f"o{i}_sin")]) == im) if ok else z3.BoolVal(False),
                               "labels:osc:column"))
         rec.check_all(ctx, items, wit)
-        rec.sample({"declared": [f"o{i}" for i in order], "labels": list(labels)})
+        rec.want_sample() and rec.sample({"declared": [f"o{i}" for i in order], "labels": list(labels)})
     if len(rec.validations) < 3:
         rec.validations.append((cfg["name"], {"__item": cfg}, {"ok": True}))
 
@@ -242,7 +242,7 @@ def _run_shapes(cfg, rec):
                     items.append(("the column of a compartment is its own shape, in every declaration order of the shape dict",
                                   core.cross_eq(zreal(matrix[a, labels.index(lab)]), want[lab]), "labels:shapes:column"))
         rec.check_all(ctx, items, wit)
-        rec.sample({"declared": cfg["order"], "labels": list(labels)})
+        rec.want_sample() and rec.sample({"declared": cfg["order"], "labels": list(labels)})
     if len(rec.validations) < 3:
         rec.validations.append((cfg["name"], {"__item": cfg}, {"ok": True}))
 
@@ -268,7 +268,7 @@ def _run_fixed(cfg, rec):
                   z3.BoolVal(all(out[d][0] == [f"{d}_baseline"] and out[d][1].shape == (2, 1) and (out[d][1] == 1).all() for d in out)),
                   "labels:baseline")]
         rec.check_all(ctx, items, wit)
-        rec.sample({"labels": {d: v[0] for d, v in out.items()}})
+        rec.want_sample() and rec.sample({"labels": {d: v[0] for d, v in out.items()}})
 
 
 # ------------------------------------------------------------------------------------------------ float side
